@@ -40,7 +40,7 @@ EvNew == /\ IsEvent("new")
          /\ tms' = MapPut(tms, Rec[l].p, EmptyObsTm)
          /\ lasts' = MapPut(lasts, Rec[l].p, EmptyLast)
          /\ allowed' = MapPut(allowed, Rec[l].p, ToSet(Rec[l].allowed))
-         /\ acc' = MapPut(acc, Rec[l].p, [out |-> <<>>, nbytes |-> 0, calls |-> <<>>])
+         /\ acc' = MapPut(acc, Rec[l].p, [out |-> <<>>, nbytes |-> 0, calls |-> <<>>, shas |-> <<>>])
          /\ UNCHANGED pend
 
 EvAllow == /\ IsEvent("allow")
@@ -60,22 +60,29 @@ Isolation(ev, p) ==
 
 \* C17: with parse_unknown_fields off, a data set governed by a template that has a field the library
 \* does not know is never reported as decoded records
-HasUnknown(def) == \E j \in 1..Len(def.fields) : def.fields[j].kind = "Unknown" /\ ~def.fields[j].ent
-DefsOf(tm, proto) == [data |-> ListToMap(tm[proto].data), opts |-> ListToMap(tm[proto].opts)]
-UnknownNotDecoded(out, post) ==
+HasUnknownF(fs) == \E j \in 1..Len(fs) : fs[j].kind = "Unknown" /\ ~fs[j].ent
+UnkOfTm(tm) ==
+  {<<"v9", tm.v9.data[i].key>> : i \in {q \in 1..Len(tm.v9.data) : HasUnknownF(tm.v9.data[q].def.fields)}}
+  \cup {<<"ipfix", tm.ipfix.data[i].key>> : i \in {q \in 1..Len(tm.ipfix.data) : HasUnknownF(tm.ipfix.data[q].def.fields)}}
+  \cup {<<"ipfix", tm.ipfix.opts[i].key>> : i \in {q \in 1..Len(tm.ipfix.opts) : HasUnknownF(tm.ipfix.opts[q].def.fields)}}
+\* walk the observed sets in order: the template that governs a data set is the one in force when the
+\* set was decoded (the cache before the call, updated by the template sets reported before it)
+UnknownNotDecoded(out, pre) ==
   IF PufOn THEN {}
-  ELSE UNION {
-    IF out[i].k \notin {"v9", "ipfix"} THEN {}
-    ELSE LET ds == DefsOf(post, out[i].k) IN
-         UNION {LET s == out[i].sets[q] IN
-                IF s.k = "data" /\ s.id \in DOMAIN ds.data /\ HasUnknown(ds.data[s.id])
-                     /\ (IF out[i].k = "v9" THEN s.recs # <<>> ELSE s.maps # <<>>)
-                  THEN {<<"C17", out[i].k \o ".data", "unknown-field-decoded", "">>}
-                ELSE IF s.k = "odata" /\ out[i].k = "ipfix" /\ s.id \in DOMAIN ds.opts /\ HasUnknown(ds.opts[s.id]) /\ s.maps # <<>>
-                  THEN {<<"C17", "ipfix.odata", "unknown-field-decoded", "">>}
-                ELSE {}
-                : q \in 1..Len(out[i].sets)}
-    : i \in 1..Len(out)}
+  ELSE LET sets == Flatten([i \in 1..Len(out) |->
+                              IF out[i].k \in {"v9", "ipfix"}
+                                THEN [q \in 1..Len(out[i].sets) |-> [proto |-> out[i].k, st |-> out[i].sets[q]]] ELSE <<>>])
+           step(ac, x) ==
+             LET st == x.st  pr == x.proto IN
+             IF st.k = "tmpl" \/ (st.k = "otmpl" /\ pr = "ipfix")
+               THEN [ac EXCEPT !.unk = (ac.unk \ {<<pr, st.recs[r].id>> : r \in 1..Len(st.recs)})
+                                         \cup {<<pr, st.recs[r].id>> : r \in {z \in 1..Len(st.recs) : HasUnknownF(st.recs[z].fields)}}]
+             ELSE IF st.k = "otmpl" THEN [ac EXCEPT !.unk = ac.unk \ {<<pr, st.recs[r].id>> : r \in 1..Len(st.recs)}]
+             ELSE IF <<pr, st.id>> \in ac.unk /\ (st.k = "data" \/ pr = "ipfix")
+                     /\ (IF pr = "v9" THEN st.recs # <<>> ELSE st.maps # <<>>)
+               THEN [ac EXCEPT !.bad = ac.bad \cup {<<"C17", pr \o "." \o st.k, "unknown-field-decoded", "">>}]
+             ELSE ac
+       IN FoldLeft(step, [unk |-> UnkOfTm(pre), bad |-> {}], sets).bad
 
 (***************************************************************************)
 (* C15: the cost model.  Units(out) counts what a result holds: items,     *)
@@ -146,6 +153,23 @@ EvToolCrash == /\ IsEvent("toolcrash")
                /\ pend' = <<>>
                /\ UNCHANGED <<tms, lasts, allowed, acc>>
 
+(***************************************************************************)
+(* C16: serialization succeeded, is well-formed, is stable, and the leaf   *)
+(* values read back from the JSON text (digits kept as text) are exactly   *)
+(* the leaf values of the decoded structure, in order.                     *)
+(***************************************************************************)
+JsonFindings(js) ==
+  IF js.st = "off" THEN {}
+  ELSE IF js.st = "panic" THEN {<<"C01", "post", "json", "panic">>}
+  ELSE IF js.st # "ok" THEN {<<"C16", "json", "failed", js.st>>}
+  ELSE (IF ~js.wellformed THEN {<<"C16", "json", "malformed", "">>} ELSE {})
+       \cup (IF ~js.twice_equal THEN {<<"C16", "json", "unstable", "">>} ELSE {})
+       \cup (IF js.jsha # js.ssha \/ js.nj # js.ns
+               THEN {<<"C16", "json", "differs",
+                       IF js.ds = "f:nonfinite" /\ js.dj = "null" THEN "Float64:nonfinite"
+                       ELSE IF js.nj # js.ns THEN "leaf-count" ELSE "value">>}
+               ELSE {})
+
 \* LIGHT=1 in the environment: only totality (C01), accounting (C02) and cost (C15) are evaluated - used for
 \* the adversarial 64 KiB inputs, where the full reference decode is left to the thorough tier
 Light == "LIGHT" \in DOMAIN IOEnv /\ IOEnv.LIGHT = "1"
@@ -155,7 +179,7 @@ EvRetLight == /\ Light /\ IsEvent("ret")
               /\ LET ev == Rec[l]  p == ev.p  acct == Accounting(pend[1].buf, ev.out, allowed[p]) IN
                    /\ Emit((IF acct = "" THEN {} ELSE {<<"C02", "framing", acct, "">>})
                            \cup CostFindings(pend[1].buf, ev, tms[p])
-                           \cup {<<"C01", "post", "json", ev.json.st>> : x \in IF ev.json.st \in {"panic"} THEN {1} ELSE {}}
+                           \cup JsonFindings(ev.json)
                            \cup {<<"C01", "post", "export", "panic">> : i \in {q \in 1..Len(ev.out) : ev.out[q].exp.st = "panic"}}
                            \cup {<<"C01", "post", "common", "panic">> : i \in {q \in 1..Len(ev.out) : ev.out[q].common.st = "panic"}})
                    /\ PrintT("COV~~" \o ToString(l) \o "~~F~~F~~light~~" \o ToString(Len(ev.out)))
@@ -169,14 +193,16 @@ EvRet == /\ ~Light /\ IsEvent("ret")
                 p  == ev.p
                 post == TmFor(ev.caches, p)
                 j  == Judge(pend[1].buf, allowed[p], tms[p], lasts[p], ev.out, post)
-            IN /\ Emit(j.findings \cup Isolation(ev, p))
+            IN /\ Emit(j.findings \cup Isolation(ev, p) \cup UnknownNotDecoded(ev.out, tms[p])
+                       \cup CostFindings(pend[1].buf, ev, tms[p]) \cup JsonFindings(ev.json))
                /\ PrintT("COV~~" \o ToString(l) \o "~~" \o Bool(j.matched) \o "~~" \o Bool(j.conf) \o "~~"
                          \o JoinSet(j.dev) \o "~~" \o ToString(Len(ev.out)))
                /\ (("DEBUG" \in DOMAIN IOEnv /\ ~j.matched) => PrintT(<<"DEBUG-IDEAL", l, j.run.out, j.run.stop, "ALLDEVS", RunCall(pend[1].buf, ObsTm(tms[p], lasts[p]), allowed[p], AllDevs).out>>))
                /\ tms' = [tms EXCEPT ![p] = post]
                /\ lasts' = [lasts EXCEPT ![p] = j.last]
                /\ acc' = [acc EXCEPT ![p] = [out |-> @.out \o ev.out, nbytes |-> @.nbytes + Len(pend[1].buf),
-                                             calls |-> Append(@.calls, [n |-> Len(pend[1].buf), out |-> ev.out])]]
+                                             calls |-> Append(@.calls, [n |-> Len(pend[1].buf), out |-> ev.out]),
+                                             shas |-> Append(@.shas, ev.json.sha)]]
          /\ pend' = <<>>
          /\ UNCHANGED allowed
 
@@ -228,6 +254,13 @@ RoundFindings(ev) ==
     \cup (IF Len(lead) = Len(B.out) \/ (np = Len(lead) /\ C.nbytes = used)
            THEN (IF tms[ev.a] # tms[IF Len(lead) = Len(B.out) THEN ev.b ELSE ev.c] THEN {<<"C12", "filter", "cache", "">>} ELSE {})
            ELSE {})
+  ELSE IF ev.kind = "twins" THEN
+    \* a and b were fed exactly the same calls: same results, same caches, same JSON text (C16, C06)
+    LET A == acc[ev.a]  B == acc[ev.b] IN
+    IF [i \in 1..Len(A.calls) |-> A.calls[i].n] = [i \in 1..Len(B.calls) |-> B.calls[i].n] /\ A.nbytes = B.nbytes
+      THEN (IF A.shas # B.shas THEN {<<"C16", "json", "cross-parser", "">>} ELSE {})
+           \cup (IF A.out # B.out \/ tms[ev.a] # tms[ev.b] THEN {<<"C06", "twins", "results-or-cache", "">>} ELSE {})
+      ELSE {}
   ELSE IF ev.kind = "trunc" THEN
     LET A == acc[ev.a]  B == acc[ev.b]  n == Len(A.out) IN
     IF NoErr(B.out) /\ SumSeq([i \in 1..Len(B.out) |-> ObsWire(B.out[i])]) = B.nbytes /\ A.nbytes > B.nbytes
@@ -242,7 +275,7 @@ RoundFindings(ev) ==
 EvRound == /\ IsEvent("round")
            /\ Emit(RoundFindings(Rec[l]))
            /\ PrintT("ROUND~~" \o ToString(l) \o "~~" \o Rec[l].kind)
-           /\ acc' = IF Rec[l].kind = "mark" THEN [p \in DOMAIN acc |-> [out |-> <<>>, nbytes |-> 0, calls |-> <<>>]] ELSE acc
+           /\ acc' = IF Rec[l].kind = "mark" THEN [p \in DOMAIN acc |-> [out |-> <<>>, nbytes |-> 0, calls |-> <<>>, shas |-> <<>>]] ELSE acc
            /\ UNCHANGED <<tms, lasts, allowed, pend>>
 
 EvOther == /\ \E e \in {"note", "flat", "flatret", "struct"} : IsEvent(e)
